@@ -348,8 +348,15 @@ def record_mult(np, StateManager, Resampler, sizes, blobs, n, seed, w):
         return real_choice(*a_, **k_)
 
     np.random.choice = spy_choice
+    # an implementation that draws its own uniforms (numpy.random.random / random_sample / rand) and looks them up itself gets, in every
+    # fourth case, uniforms adjacent to 1: the lookup must still return valid indices (numpy's choice is not affected by this patch)
+    adversarial = (seed % 4 == 3)
     try:
-        rs.run(w.copy())
+        if adversarial:
+            with Patched(np, float(np.nextafter(1.0, 0.0))):
+                rs.run(w.copy())
+        else:
+            rs.run(w.copy())
         err = False
     except Exception as ex:
         err, exc = True, repr(ex)
@@ -797,7 +804,7 @@ def main():
             sizes = list(sizes_pool[rng.randint(0, len(sizes_pool))])
             blobs = bool(rng.randint(0, 2))
             w = gen_weights(np, rng, sum(sizes))
-            n = int(rng.randint(1, 9))
+            n = int(rng.randint(1, 9)) if ci % 97 != 5 else 70001   # now and then more draws than 2^16 (and not a multiple of it)
             seed = int(rng.randint(0, 2 ** 31 - 1))
             case, info, err = record_mult(np, StateManager, Resampler, sizes, blobs, n, seed, w)
             zero, got = case["zero"], case["out"]
